@@ -7,7 +7,7 @@ PROP = Property(
     coq_targets=["Extract/Extract_EventLoop.vo"],
     engines=[Engine(name="evthread", c_srcs=["harness/evthread_drv.c"],
                     ml_srcs=["ocaml/gen/EventLoopModel.ml", "ocaml/evthread_drv.ml"], ml_packages=["str"],
-                    gen=evgen.gen, n_quick=36, n_thorough=600, sep=None, timeout=3000, search_factor=1)],
+                    gen=evgen.gen, n_quick=36, n_thorough=600, sep=None, timeout=3000, search_factor=1, per_case=True)],
     trusted_base=["Coq 8.16.1 kernel + coqc", "extraction (ExtrOcamlBasic) + OCaml 4.13.1",
                   "harness/evthread_drv.c (mock DNS server on loopback, real event thread, real time), ocaml/evthread_drv.ml",
                   "guarded trace hook CARES_VERIF in src/lib/event/ares_event_thread.c",
